@@ -41,7 +41,7 @@ def verify(cand):
         res["demo_mutant_rc"] = rc
         res["demo_mutant_tail"] = out[-600:]
         res["confirmed"] = (res["demo_clean_rc"] == 0 and res["demo_mutant_rc"] != 0
-                            and "1714 passed" in res["suite"] and "failed" not in res["suite"])
+                            and "1714 passed" in res["suite"] and " failed" not in res["suite"] and "error" not in res["suite"])
     finally:
         sh("git -C /repo worktree remove --force %s" % wt)
         shutil.rmtree(wt, ignore_errors=True)
